@@ -66,6 +66,12 @@ def gen_spec(rng):
                             nrow=rng.randint(5, 12) if multi else 60, page={}, col_rel_width=False, maxruns=3,
                             title=rng.random() < 0.3, subline=False, page_hf=False)
     nc = len(spec["df"]["cols"])
+    if isinstance(spec["colheader"], list) and spec["colheader"] and rng.random() < 0.2:
+        # a header row whose labels are all empty (a spacer row above the real labels, or the only row) is still
+        # the first table row of the document
+        hrow = spec["colheader"][rng.choice([0, 0, len(spec["colheader"]) - 1])]
+        if isinstance(hrow.get("text"), list) and len(hrow["text"]) >= 2:
+            hrow["text"] = ["" for _ in hrow["text"]]
     if spec["colheader"] == "default" and rng.random() < 0.25:
         spec["body"]["as_colheader"] = False
     page = spec.setdefault("page", {})
